@@ -26,7 +26,7 @@ import (
 )
 
 var names = []string{"a", "a/b", "b", "a\nb", "x*y", "ab", "_internal/x", ""}
-var patterns = []string{"a", "a/b", "b", "a\nb", "x*y", "ab", "_internal/x", "", "*", "a/*", "*b", "a*", "**", "a*b", "a.b", "x\\*y", "_internal/*", "[ab]", "?"}
+var patterns = []string{"a", "a/b", "b", "a\nb", "x*y", "ab", "_internal/x", "", "*", "a/*", "*b", "a*", "**", "a*b", "a.b", "x\\*y", "_internal/*", "[ab]", "?", "a/*/b", "a*a", "ab*b", "*a*b*"}
 var actions = []string{"get", "info", "put", "activate", "delete"}
 
 func genRules(rng *rand.Rand) []refmodel.Rule {
@@ -91,7 +91,7 @@ func TestC01(t *testing.T) {
 	r.Assume("refmodel + independent glob matcher are the meaning of the property",
 		"for a request that is both unauthorised and ill-formed (empty name on put/activate, version 0, reserved prefix on a mutation) either the denied class or another error class is accepted")
 	dir := evid.TempDir(t)
-	nCases := r.N(300, 5000)
+	nCases := r.N(600, 8000)
 	const addr = "100.64.0.2:4711"
 	var wg sync.WaitGroup
 	nw := runtime.NumCPU()
@@ -289,5 +289,5 @@ func TestC01(t *testing.T) {
 	}
 	wg.Wait()
 	r.Require("cases", "allowed_calls", "denied_calls", "denied_on_existing", "denied_on_absent")
-	r.Rule("case = (database state reached by 4-13 random superuser operations over a hostile 8-name pool incl. empty, reserved, newline and literal-'*' names; 0-3 random rules over the 5 actions (+unknown ones) and 19 exact/wildcard/regexp-meta patterns); then all 9 operations x all 8 names x versions {0,1,2,9} in random order, at the DB API and through the HTTP handlers. Distinct = (level, operation, authorised?, secret exists?, model outcome class, rule count)")
+	r.Rule("case = (database state reached by 4-13 random superuser operations over a hostile 8-name pool incl. empty, reserved, newline and literal-'*' names; 0-3 random rules over the 5 actions (+unknown ones) and 23 exact/wildcard/regexp-meta patterns); then all 9 operations x all 8 names x versions {0,1,2,9} in random order, at the DB API and through the HTTP handlers. Distinct = (level, operation, authorised?, secret exists?, model outcome class, rule count)")
 }
